@@ -236,6 +236,47 @@ def _builtin_worker(rank, n):
     return st
 
 
+def _power_worker(rank, n):
+    """Whole powers are exact, however large: every a ^ b for 2 <= a <= 12, 0 <= b <= 45, alone, under %, in a
+    comparison with the same power built by multiplication, with operands from variables; also negative bases and
+    the float results of negative and fractional exponents (compared with Python's **)."""
+    w = world.World(world.POP_ONE)
+    st = dict(cases=0, viol={})
+    cases = []
+    for a in range(2, 13):
+        for b in range(0, 46):
+            cases.append(('{%d ^ %d}' % (a, b), a ** b))
+            cases.append(('{%d ^ %d %% 7}' % (a, b), a ** b % 7))
+            if b:
+                cases.append(('{%d ^ %d == %d ^ %d * %d}' % (a, b, a, b - 1, a), True))
+                cases.append(('{%d ^ %d - %d ^ %d * %d + 1}' % (a, b, a, b - 1, a), 1))
+            cases.append(('{va ^ vb}', a ** b, 'assign va %d assign vb %d ' % (a, b)))
+            cases.append(('{(0 - %d) ^ %d}' % (a, b), (-a) ** b))
+    for a in (2, 3, 10):
+        for b in (-1, -2, -3):
+            cases.append(('{%d ^ (0 - %d)}' % (a, -b), a ** b))
+        cases.append(('{%d ^ 0.5}' % a, a ** 0.5))
+    for i, case in enumerate(cases):
+        if i % n != rank:
+            continue
+        expr, want = case[0], case[1]
+        pre = case[2] if len(case) > 2 else ''
+        text = pre + 'print ' + expr
+        w.reset()
+        res = w.run_script(text, cap=200)
+        outs = [e[1] for e in res.trace if e[0] == 'out']
+        st['cases'] += 1
+        if not res.accepted or res.abort or len(outs) != 1:
+            st['viol'].setdefault('power-run-problem', [0, text, repr((res.errors, res.abort, outs))])[0] += 1
+            continue
+        got = outs[0]
+        same = (got == want and (isinstance(got, float) == isinstance(want, float) or isinstance(want, bool))) \
+            if not isinstance(want, float) else (isinstance(got, (int, float)) and abs(got - want) <= 1e-12 * max(1.0, abs(want)))
+        if not same:
+            st['viol'].setdefault('power-wrong-value', [0, text, 'got %r, exact value %r' % (got, want)])[0] += 1
+    return st
+
+
 # -------------------------------------------------------------------- random
 import random as _pyrandom
 
@@ -355,7 +396,7 @@ def run(tier, seed):
                 tot[k] += r[k]
             values.update(r['values'])
             merge(r['viol'])
-    bres = par.run(_builtin_worker, ())
+    bres = par.run(_builtin_worker, ()) + par.run(_power_worker, ())
     bcases = sum(r['cases'] for r in bres)
     for r in bres:
         merge(r['viol'])
@@ -387,7 +428,7 @@ def run(tier, seed):
         'evaluations': tot['cases'] + bcases + rexec,
         'distinct_nontrivial': len(values),
         'rule': 'A/B: every typed expression tree (14 operators; sizes per part) x 3 renderings, each compiled and run, '
-                'value compared with Python evaluation of the tree; C: built-in argument grids; D: every answer '
+                'value compared with Python evaluation of the tree; C: built-in argument grids and every whole power a^b (2<=a<=12, b<=45) exactly; D: every answer '
                 'sequence of the random source (all 2^k getrandbits answers, <=3 rejection rounds; 64-point random() '
                 'grid) for every -3<=a<=b<=8; F: two jobs evaluating the same built-in with different operands on two '
                 'controlled threads, every schedule with <=1 preemption (thorough: 2 for three short pairs) at line granularity, each job compared with its solo run. distinct_nontrivial = distinct observed output traces.',
